@@ -73,6 +73,14 @@ def finalKept (first : Prophecy) (now : Option Prophecy) : Bool := first.status 
     execution of the same history: nothing of Go's map iteration order reaches the store -/
 def storeBytesSame (first now : String) : Bool := first == now
 
+/-- the status a claim message reported for its prophecy is the status the store returns for it right afterwards -/
+def reportedIsStored (reported : StatusText) (stored : Option StatusText) : Bool := stored == some reported
+
+/-- Finality against the ledger of REPORTED statuses: once a claim message reported SUCCESS or FAILED for a prophecy,
+    every later claim about it is refused, the store still returns that status, and no balance or supply moves. -/
+def finalByLedger (reported : StatusText) (ok : Bool) (stored : Option StatusText) (bankSame : Bool) : Bool :=
+  reported == .pending || (!ok && stored == some reported && bankSame)
+
 /-- Finality as observed around one claim message: a prophecy that was not pending before the message is the
     same afterwards, the message did not succeed, and no balance or supply changed. -/
 def finalStable (before : Prophecy) (after : Option Prophecy) (ok : Bool) (bankSame : Bool) : Bool :=
